@@ -234,6 +234,58 @@ def run(ctx):
     # the patterned Viterbi einsum that fills the tables (model Ve.vitEinsum, theorems C04.vitEinsum_out / vitEinsum_ptrOk)
     from .c07 import run_viteinsum_model
     run_viteinsum_model(ctx, 60 if ctx.quick else 1200)
+    run_maskedfill(ctx, 150 if ctx.quick else 3000)
+
+
+def run_maskedfill(ctx, n):
+    """`PatternedTensor.masked_fill_into(dest, value)` — how F_viterbi records the index of the best rule — against its model
+    `Mf.maskedFillInto` (the strided view of dest at the cells the mask's pattern covers; the fill-everything-then-restore path
+    when the mask's default is True) and against its specification: dest becomes `where(mask.to_dense(), value, dest)`"""
+    import torch
+    from . import ptgen
+    from .common import enc_list, enc_ext
+    reqs, meta = [], []
+    for k in range(n):
+        nd = ctx.rng.choice([0, 1, 1, 2, 2, 3])
+        types = [ptgen.random_type(ctx.rng, depth=ctx.rng.choice([1, 2])) for _ in range(nd)]
+        if nd >= 2 and ctx.rng.random() < 0.4:
+            i, j = ctx.rng.sample(range(nd), 2); types[j] = types[i]
+        if math.prod(ptgen.ty_numel(t) for t in types) > 300:
+            continue
+        mask = ptgen.random_pt(ctx.rng, types, bool_=True, p_share=0.5)
+        shape = [ptgen.ty_numel(t) for t in types]
+        dest = torch.tensor([ctx.rng.randint(0, 5) for _ in range(math.prod(shape))], dtype=torch.int32).reshape(shape)
+        value = ctx.rng.randint(6, 9)
+        before = dest.clone()
+        case = dict(stream='masked_fill_into', mask=ptgen.enc_pt(mask), dest=before.reshape(-1).tolist(), value=value)
+        ctx.case(case, ('maskedfill', case['mask'], tuple(case['dest'])) if mask.physical.numel() != math.prod(shape) else None, sample_every=100)
+        ctx.count('maskedfill.default-' + str(bool(mask.default)))
+        ctx.evaluations += 1
+        try:
+            mask.masked_fill_into(dest, value)
+        except Exception as ex:  # noqa
+            ctx.fail(f'masked_fill_into raised {type(ex).__name__}: {str(ex)[:80]}', case, repr(ex), None, tags=['maskedfill', 'raises'])
+            continue
+        want = torch.where(mask.to_dense(), torch.tensor(value, dtype=torch.int32), before)
+        if not torch.equal(dest, want):
+            ctx.fail('masked_fill_into: dest is not where(mask, value, dest)', case, dest.reshape(-1).tolist(), want.reshape(-1).tolist(),
+                     tags=['maskedfill', 'value'])
+            continue
+        reqs.append(f"C04.maskedfill {ptgen.enc_pt(mask)} {enc_list(before.reshape(-1).tolist(), lambda x: str(int(x)))} {value}")
+        meta.append((case, dest.reshape(-1).tolist()))
+    for (case, got), rep in zip(meta, ctx.driver.ask_many(reqs)):
+        if isinstance(rep, Exception): raise rep
+        toks = rep.split()
+        if toks[0] != 'some':
+            ctx.disagree('Mf.maskedFillInto: the model reports the ValueError of project, the library returned', case, got, rep)
+            continue
+        L = int(toks[1]); model = [int(float(x)) for x in toks[2:2 + L]]
+        if model != got:
+            ctx.disagree('Mf.maskedFillInto (model of masked_fill_into) vs the library', case, got, model)
+        elif toks[2 + L] != 'T':
+            ctx.disagree('Mf.maskedFillInto differs from Mf.spec (theorem C04.maskedFillInto_spec would be contradicted)', case, got, rep[-20:])
+        elif toks[3 + L] != 'T':
+            ctx.disagree('the mask is not well formed (PT.wf): theorem C04.maskedFillInto_spec does not cover it', case, None, rep[-20:])
 
 
 def replay(ctx, rep):
